@@ -23,6 +23,7 @@ RULE = ("aggregates of 2-4 sites (thorough 2-5; time-dependent tensors 2-3 resp.
         "diagonal) incl. zero rates, electronic Lindblad forms on vibronic aggregates, through OpenSystem and through direct constructors. distinct = (configuration, N, rounded parameters); non-trivial iff "
         "the tensor has a non-zero population-transfer element and, for non-secular theories, a non-zero element outside the secular pattern.")
 RULE = RULE + " Round-6 workloads: tensor-form objects are also read in the eigenbasis of a self-adjoint operator with complex elements (unitary transformation) and compared with the site-basis tensor transformed by the context's matrix."
+RULE = RULE + " Round-7 workloads: time-dependent five-index tensors (TD Foerster, TD combined) are secularised by the harness with both values of the legacy option."
 ASSUMPTIONS = ["modified-Redfield and non-equilibrium Foerster classes are not in the statement's list (and do not import cleanly per BASELINE): not monitored",
                "identities are evaluated with tolerance 1e-13 * max|R| * N^2 (rounding of the basis transformations)"]
 MIN_NONTRIVIAL = {"quick": 60, "thorough": 400}
